@@ -99,6 +99,14 @@ theorem loadAndCheck_render (v : ValidExpr) (hb : v.bounded = true) (x : Int) :
   rw [render_compliant, intValid_eq_partial v hb x]
   rfl
 
+/-- checker layer (decision only): with a Known constant argument `x`, invalidFunctionArg is reported exactly when
+`x` lies outside the declared ranges -/
+theorem invalidArg_reported_iff (v : ValidExpr) (hb : v.bounded = true) (x : Int) :
+    reportsInvalidArg v.render x = some true ↔ ¬ v.mem x := by
+  unfold reportsInvalidArg
+  rw [intValid_eq_partial v hb x]
+  by_cases h : v.mem x <;> simp [h]
+
 -- the hypotheses are satisfiable by non-trivial expressions (swapped bounds included)
 example : (⟨.closed (-7) 0, [.single 8, .from 100, .upto (-9223372036854775808), .closed 5 1]⟩ : ValidExpr).bounded = true := by decide
 example : (⟨.closed 0 18446744073709551615, []⟩ : ValidExpr).bounded65 = true := by decide
